@@ -158,6 +158,9 @@ func DrawProfile(property, tier string, r *PRNG) *Profile {
 		if property == "C12" {
 			p.DtMix = []float64{2, 1, 3, 6, 3, 2, 1.5, 1}
 		}
+		if r.Chance(0.12) {
+			p.WideW = 1.5 // quantities of any magnitude a decimal string can express
+		}
 	case "C07":
 		core("Sell", "Buy", "SetFeeParams", "UpdSell", "AddDenom")
 		scale(p.Weights, []string{"Sell", "Buy"}, 3)
